@@ -454,7 +454,7 @@ class NN:
 
     def _key_kind(self, q, k, v):
         """How the dictionary key is derived from the element at the inserted position v."""
-        k = strip(k)
+        k, v = self.unwrap(k), self.unwrap(v)
         el = self.elem_of(q, k)
         if el is not None and el[1] == strip(v):
             return ("elem",)
@@ -497,9 +497,18 @@ class NN:
         return dict(info, space=self.root(subst(space, bind))[0])
 
     # ---- positions
+    @staticmethod
+    def unwrap(t):
+        """No-op conversions of values that already have the type: int(position), str(sequence), np.intp(position), operator.index(..)."""
+        t = strip(t)
+        while head(t) == "call" and head(strip(t[1])) == "glob" and strip(t[1])[1] in ("builtins.int", "builtins.str", "numpy.intp", "numpy.int64", "numpy.str_", "operator.index") \
+                and len(t[2]) == 1 and not t[3]:
+            t = strip(t[2][0])
+        return t
+
     def idx_space(self, q, t):
         """Index space (root container term) of a position-valued term; None when the term is not a recognised position."""
-        t = strip(t)
+        t = self.unwrap(t)
         h = head(t)
         if h == "item":
             base = strip(t[1])
@@ -645,10 +654,10 @@ class NN:
     # ---- elements
     def elem_of(self, q, t):
         """(space, position term) when t denotes the element stored at a position of a sequence container."""
-        t = strip(t)
+        t = self.unwrap(t)
         h = head(t)
         if h == "sub":
-            c, i = t[1], strip(t[2])
+            c, i = t[1], self.unwrap(t[2])
             sp = self.idx_space(q, i)
             root, _ = self.root(c)
             if sp is not None:
